@@ -228,6 +228,7 @@ pub fn gen_prelude(r: &mut Rng, n: usize, counters: Option<bool>) -> Vec<PreCred
                 1 => Some(false),
                 _ => Some(true),
             },
+            hmac_len: if r.chance(1, 6) { *r.pick(&[48u8, 64]) } else { 0 },
         })
         .collect()
 }
